@@ -284,7 +284,7 @@ func new(input OmegaInput) (output OmegaOutput) {
 			MinItemGas:           types.Gas(g),                            // g
 			MinMemoGas:           types.Gas(m),                            // m
 			CreationSlot:         input.Addition.AccumulateArgs.Timeslot,  // r
-			DepositOffset:        types.U64(0),                            // f
+			DepositOffset:        types.U64(f),                            // f
 			LastAccumulationSlot: types.TimeSlot(0),                       // a
 			ParentService:        input.Addition.ResultContextX.ServiceID, // p
 		},
